@@ -227,3 +227,17 @@ package types
 //@ func (g *GenesisState) Validate() (err)
 //@   requires[C17] g != nil
 //@   ensures[C17] err == nil ==> genesisOK(g)
+
+// ---------------------------------------------------------------------------------------------
+// Routing is by the controller's own identifier (C05): the identifier a controller reports when it is registered
+// is recorded (ghost route_id), so that the router can be required to file it under exactly that key.
+// ---------------------------------------------------------------------------------------------
+//@ func (self ForwardingController) ID() (r)
+//@   sets-post route_id = r
+//@   modifies route_id
+//@ func (self ActionController) ID() (r)
+//@   sets-post route_id = r
+//@   modifies route_id
+//@ func (self AdapterController) ID() (r)
+//@   sets-post route_id = r
+//@   modifies route_id
